@@ -229,6 +229,9 @@ func (r *NgReader) readOption() error {
 			}
 		}
 		r.currentBlock.length -= uint32(length)
+	} else {
+		// an option without a value: do not leave the previous option's bytes behind
+		r.currentOption.value = r.currentOption.value[:0]
 	}
 	return nil
 }
